@@ -220,6 +220,10 @@ PROP_MENU = [
     ("CREATED", "00011231T235959Z"), ("EXDATE", "00010101T000000,09991231T000000"), ("DURATION", "PT0S"), ("TRIGGER", "-P0D"),
     ("RRULE", "FREQ=DAILY;UNTIL=09990101T000000Z"), ("FREEBUSY", "00010101T000000Z/00010101T010000Z"),
     ("SUMMARY", "\ufeffstarts with U+FEFF"), ("DESCRIPTION", "x" * 70 + "\ufeff" + "y" * 10), ("LOCATION", "a\u2028b\x85c"),
+    ("ATTENDEE;DELEGATED-TO=a@example.com,b@example.com;DELEGATED-FROM=c@example.com", "mailto:d@example.com"),
+    ("ATTENDEE;MEMBER=team-a,\"mailto:b@example.com\";SENT-BY=\"mailto:s@example.com\"", "mailto:e@example.com"),
+    ("DESCRIPTION;ALTREP=\"http://x/y\";LANGUAGE=en", "with altrep"), ("ATTACH;FMTTYPE=text/plain;ENCODING=BASE64;VALUE=BINARY", "QUJD"),
+    ("CATEGORIES", "work,errand,family,work,home"),
     ("PRIORITY", "0"), ("SEQUENCE", "2147483647"), ("GEO", "0;0"), ("TZOFFSETFROM", "-0000"), ("TZOFFSETTO", "+235959"),
 ]
 COMP_NAMES = ["VEVENT", "VTODO", "VJOURNAL", "VFREEBUSY", "VALARM", "X-CUSTOM", "vevent", "VVENUE"]
